@@ -215,6 +215,14 @@ func (s *Sched) probe(label string) {
 	s.mu.Unlock()
 }
 
+// Yield is a bare scheduling point (used by simatomic before every atomic operation); outside a
+// scheduled run it does nothing.
+func Yield(label string) {
+	if s := cur(); s != nil {
+		s.yield(label)
+	}
+}
+
 // ---- Map -----------------------------------------------------------------------
 
 // Map replaces sync.Map: a plain map whose every operation is one atomic step
